@@ -134,7 +134,9 @@ Fixpoint lower (n : rnode) {struct n} : option stmt :=
           | Some HImportFrom => match pay, fs with PImportFrom ln eln names, [] => Some (SImportFrom ln eln names) | _, _ => None end
           | Some HIf =>
               match pay, fs with
-              | PIf test, [body; orelse] => Some (SIf (str_mem test type_checking_tests) body orelse)
+              | PIf test, [body; orelse] =>
+                  Some (SIf (if str_mem test type_checking_tests then TCPos
+                             else if str_mem test negated_type_checking_tests then TCNeg else TCNone) body orelse)
               | _, _ => None end
           | Some HExpr =>
               (* visit_expr: <all_receiver>.<method>(argument) with method in all_methods extends the exports exactly as
